@@ -1264,4 +1264,20 @@ example : Safe_tryMultiSub exOps ∧ Safe_tryMultiAndRefWith sortDesc .exact exO
 example : ¬ Safe_tryMultiSub
     ([.ok [⟨0, .bitmap BStore.full⟩], .ok [⟨0, .array [70000]⟩]] : List (Except Nat Bitmap)) := by decide +kernel
 
+/-- **`RoaringBitmap &= RoaringBitmap`** (owned, ops.rs:236-257: swap to the operand with fewer containers, then `retain_mut`
+    with the matched `rhs` container moved out by `mem::replace`) **and `MultiOps::intersection` by value** —
+    `try_multi_and_owned` (multiops.rs:118-141) as a whole: every call of the closure on the `rhs` the calls before left, the
+    container-level `&=` incl. `ensure_correct_store`; every iteration of the fold on the accumulator left so far. -/
+theorem C16_safe_bitmap_and_owned (a b : Bitmap) (ha : a.WF) (hb : b.WF) : Safe_andAO a b :=
+  safe_andAO a b ha.storesInv hb.storesInv
+theorem C16_safe_multiops_intersection_owned {ε : Type} (sort : List Bitmap → List Bitmap) (hs : ∀ l, (sort l).Perm l)
+    (h : Hint) (xs : List (Except ε Bitmap)) (hwf : ∀ b ∈ okValues xs, Bitmap.WF b) :
+    Safe_tryMultiAndOwnedWith sort h xs :=
+  safe_tryMultiAndOwnedWith hs h xs (fun b hb => (hwf b hb).storesInv)
+example : Safe_andAO exB exB := C16_safe_bitmap_and_owned exB exB exB_wf exB_wf
+example : Safe_tryMultiAndOwnedWith sortDesc (.upper 51) exOps :=
+  C16_safe_multiops_intersection_owned sortDesc sortDesc_isSortDesc.perm (.upper 51) exOps exOps_wf
+/-- teeth: the ill-formed operand is the one searched IN (more containers), met through `rhs.containers[loc]` -/
+example : ¬ Safe_andAO [⟨0, .bitmap BStore.full⟩] [⟨0, .array [70000]⟩, ⟨1, .array [1]⟩] := by decide +kernel
+
 end Roaring.C16
